@@ -150,6 +150,32 @@ def mdSafe (seen : List Sym) (cur : Sub) : List St → Bool
 
 def noStaleCapture (ss : List St) : Bool := mdSafe [] [] ss
 
+/-! #### the suggested repair: substitute the pending values into the first assignment too -/
+
+def mdGoFix (seen : List Sym) (cur : Sub) : List St → List St
+  | [] => []
+  | .ode a r :: rest => .ode a (r.map (substE cur)) :: mdGoFix seen cur rest
+  | .assign x e :: rest =>
+    if !seen.contains x && !assignedIn x rest then
+      .assign x (substE cur e) :: mdGoFix (x :: seen) cur rest
+    else if assignedIn x rest then
+      mdGoFix (x :: seen) (cur.set x (substE cur e)) rest          -- first or middle: always substituted
+    else
+      .assign x (substE cur e) :: mdGoFix seen (cur.del x) rest
+
+/-- Only clause (b) of `mdSafe` remains. -/
+def mdSafeFix (seen : List Sym) (cur : Sub) : List St → Bool
+  | [] => true
+  | .ode a _ :: rest =>
+    a.all (fun y => !cur.dom.contains y && !cur.rangeSyms.contains y) && mdSafeFix seen cur rest
+  | .assign x e :: rest =>
+    if !seen.contains x && !assignedIn x rest then
+      !cur.rangeSyms.contains x && mdSafeFix (x :: seen) cur rest
+    else if assignedIn x rest then
+      mdSafeFix (x :: seen) (cur.set x (substE cur e)) rest
+    else
+      !(cur.del x).rangeSyms.contains x && mdSafeFix seen (cur.del x) rest
+
 /-! #### literal transcription with index lists -/
 
 /-- First loop: `duplicated_symbols` (symbol ↦ indices of all but the first assignment). -/
